@@ -13,6 +13,7 @@ func init() { props["C27"] = checkC27 }
 func checkC27(r *Run) {
 	r.Explain = "(R2+) create() hands the access-control fields of Config (enabled API sets, CSRF / header-check switches, host whitelist, credentials, host) to the mux unchanged; (R3+) the CSRF signing secret is written once, by package initialisation, from at least 32 random bytes (never lazily); C27: (R1) every route is registered through webHandlerWithOptionals — the only caller of mux.Handle — whose handler composition is Elapsed -> CORS -> [CSRF check] -> [origin/referer + host check] -> [JSON content type for v2] -> basic auth -> gzip, with CSRF checking off only for /api/v1/csrf and header checks following the configuration; (R2) the extracted table (path, method -> API sets, csrf) equals the reviewed reference table, and the README's 'API sets' lines are compared (differences reported); (R3) each middleware reaches the wrapped handler only under its documented condition (method served and an enabled API set; token verified for POST/PUT/DELETE unless disabled; host whitelisted; origin checked when present, referer only when origin is empty; exact credentials); token verification requires two parts, equal signature, not expired; (R4) credentials are compared separately, not as a hash of their concatenation; (R5) 'a new token invalidates earlier ones' needs state written on issue and read on verify."
 	r.NotDec = "status codes and bodies of concrete requests; TLS/transport"
+	ruleNoCrossedConfig(r, "C27-R0")
 	// R1
 	whwo := r.P.ClosureByVar("api.newServerMux", "webHandlerWithOptionals")
 	if whwo == nil {
